@@ -250,10 +250,10 @@ theorem withUseCur_tw (f : St → St)
   obtain ⟨b1, e1⟩ := hf (s.setUseCur true) b t (by simpa using h)
   exact ⟨b1, by rw [St.tw_setUseCur, e1, St.tw_setUseCur]⟩
 
-theorem reopenAfterClose_tw (cfg : Cfg) (d : DST) (erSize : Nat) (s : St) (b : Bool) (t : List (Nat × Bool))
+theorem reopenAfterClose_tw (cfg : Cfg) (d : DST) (s : St) (b : Bool) (t : List (Nat × Bool))
     (h : s.c.inTracingSection = true) :
-    ∃ b', (reopenAfterClose cfg d erSize (s.tw b t)).1 = (reopenAfterClose cfg d erSize s).1 ∧
-      (reopenAfterClose cfg d erSize (s.tw b t)).2 = (reopenAfterClose cfg d erSize s).2.tw b' t := by
+    ∃ b', (reopenAfterClose cfg d (s.tw b t)).1 = (reopenAfterClose cfg d s).1 ∧
+      (reopenAfterClose cfg d (s.tw b t)).2 = (reopenAfterClose cfg d s).2.tw b' t := by
   unfold reopenAfterClose
   simp only
   obtain ⟨b1, e1, e2⟩ := cbFull_tw s b t
@@ -264,10 +264,7 @@ theorem reopenAfterClose_tw (cfg : Cfg) (d : DST) (erSize : Nat) (s : St) (b : B
   · simp only [Bool.false_eq_true, if_false]
     obtain ⟨b2, e3⟩ := withUseCur_tw (cbOpen cfg d) (cbOpen_tw cfg d) r.2 b1 t hs.2
     rw [e3]
-    generalize withUseCur (cbOpen cfg d) r.2 = s2
-    by_cases hc : erSize ≤ s2.c.room s2.c.at_
-    · simp only [room_tw, St.tw_c_at_, hc, if_true]; exact ⟨b2, trivial, rfl⟩
-    · simp only [room_tw, St.tw_c_at_, hc, if_false]; exact ⟨b2, trivial, rfl⟩
+    exact ⟨b2, trivial, rfl⟩
   · simp only [if_true]
     exact ⟨b1, (noSpace_tw false r.2 b1 t).1, (noSpace_tw false r.2 b1 t).2⟩
 
@@ -281,18 +278,18 @@ theorem reserveTail_tw (cfg : Cfg) (d : DST) (erSize : Nat) (s : St) (b : Bool) 
     · simp only [St.tw_halted, room_tw, St.tw_c_at_, hh, hc, Bool.false_eq_true, if_false, if_true]
       obtain ⟨b1, e1⟩ := withUseCur_tw (cbClose cfg d) (cbClose_tw cfg d) s b t h
       rw [e1]
-      exact reopenAfterClose_tw cfg d erSize _ b1 t (withUseCur_sec (cbClose cfg d) (cbClose_sec cfg d) s h).2
+      exact reopenAfterClose_tw cfg d _ b1 t (withUseCur_sec (cbClose cfg d) (cbClose_sec cfg d) s h).2
     · simp only [St.tw_halted, room_tw, St.tw_c_at_, hh, hc, Bool.false_eq_true, if_false]
       exact ⟨b, trivial, rfl⟩
   · simp only [St.tw_halted, hh, if_true]; exact ⟨b, trivial, rfl⟩
 
-theorem reserve_tw (cfg : Cfg) (d : DST) (erSize : Nat) (s : St) (b : Bool) (t : List (Nat × Bool))
+theorem reserve_tw (cfg : Cfg) (d : DST) (erSize emptySize : Nat) (s : St) (b : Bool) (t : List (Nat × Bool))
     (h : s.c.inTracingSection = true) :
-    ∃ b', (reserve cfg d erSize (s.tw b t)).1 = (reserve cfg d erSize s).1 ∧
-      (reserve cfg d erSize (s.tw b t)).2 = (reserve cfg d erSize s).2.tw b' t := by
+    ∃ b', (reserve cfg d erSize emptySize (s.tw b t)).1 = (reserve cfg d erSize emptySize s).1 ∧
+      (reserve cfg d erSize emptySize (s.tw b t)).2 = (reserve cfg d erSize emptySize s).2.tw b' t := by
   unfold reserve
   have hfull : (s.tw b t).c.isFull = s.c.isFull := rfl
-  by_cases h1 : erSize > s.c.room s.c.offContent
+  by_cases h1 : emptySize > s.c.room s.c.offContent
   · simp only [room_tw, St.tw_c_offContent, h1, if_true]
     exact ⟨b, (noSpace_tw true s b t).1, (noSpace_tw true s b t).2⟩
   · cases h2 : s.c.isFull
@@ -348,16 +345,21 @@ theorem traceWrite_tw (cfg : Cfg) (d : DST) (e : ERT) (args : Args) (s : St) (b 
     · exact ⟨b3, rfl⟩
   · simp only [St.tw_halted, hh, if_true]; exact ⟨b, rfl⟩
 
-theorem traceAfterReserve_tw (cfg : Cfg) (d : DST) (e : ERT) (args : Args) (r r' : Bool × St) (b : Bool)
-    (t : List (Nat × Bool)) (h : r.2.c.inTracingSection = true) (h1 : r'.1 = r.1) (h2 : r'.2 = r.2.tw b t) :
-    ∃ b', traceAfterReserve cfg d e args r' = (traceAfterReserve cfg d e args r).tw b' t := by
+theorem traceAfterReserve_tw (cfg : Cfg) (d : DST) (e : ERT) (args : Args) (erAt erSize : Nat) (r r' : Bool × St)
+    (b : Bool) (t : List (Nat × Bool)) (h : r.2.c.inTracingSection = true) (h1 : r'.1 = r.1)
+    (h2 : r'.2 = r.2.tw b t) :
+    ∃ b', traceAfterReserve cfg d e args erAt erSize r' = (traceAfterReserve cfg d e args erAt erSize r).tw b' t := by
   unfold traceAfterReserve
   rw [h1, h2]
+  have hsz : sizeAfterReserve d e args erAt erSize (r.2.tw b t) = sizeAfterReserve d e args erAt erSize r.2 := rfl
   cases hh : r.2.halted
   · cases h1 : r.1
     · simp only [St.tw_halted, hh, Bool.false_eq_true, if_false, Bool.not_false, if_true]; exact ⟨b, rfl⟩
-    · simp only [St.tw_halted, hh, Bool.false_eq_true, if_false, Bool.not_true]
-      exact traceWrite_tw cfg d e args r.2 b t h
+    · by_cases hc : sizeAfterReserve d e args erAt erSize r.2 > r.2.c.room r.2.c.at_
+      · simp only [St.tw_halted, hh, Bool.false_eq_true, if_false, Bool.not_true, hsz, room_tw, St.tw_c_at_, hc, if_true]
+        exact ⟨b, rfl⟩
+      · simp only [St.tw_halted, hh, Bool.false_eq_true, if_false, Bool.not_true, hsz, room_tw, St.tw_c_at_, hc]
+        exact traceWrite_tw cfg d e args r.2 b t h
   · simp only [St.tw_halted, hh, if_true]; exact ⟨b, rfl⟩
 
 /-- C07 atomicity: once a tracing call has passed its enable test, neither the value of the enable flag
@@ -366,7 +368,7 @@ theorem traceEnabled_tw (cfg : Cfg) (d : DST) (e : ERT) (args : Args) (s : St) (
     (h : s.c.inTracingSection = true) :
     ∃ b', traceEnabled cfg d e args (s.tw b t) = (traceEnabled cfg d e args s).tw b' t := by
   unfold traceEnabled
-  obtain ⟨b1, e1, e2⟩ := reserve_tw cfg d (erSizeAt d e args s.c.at_) s b t h
-  exact traceAfterReserve_tw cfg d e args _ _ b1 t (reserve_sec cfg d _ s h).2 e1 e2
+  obtain ⟨b1, e1, e2⟩ := reserve_tw cfg d (erSizeAt d e args s.c.at_) (erSizeAt d e args s.c.offContent) s b t h
+  exact traceAfterReserve_tw cfg d e args _ _ _ _ b1 t (reserve_sec cfg d _ _ s h).2 e1 e2
 
 end BVM
